@@ -159,11 +159,25 @@ RULE = ("BFS over every history of claim/open/add/close/release/disconnect by 3 
         "= a third side has arrived at some live mailbox")
 
 
+class C05Restart(C05):
+    """the same oracle after a restart: the first commands a rebuilt server sees come from a third side"""
+
+    def configure(self, tier):
+        C05.configure(self, tier)
+        self.cfg = dict(storage="file")
+        self.depth = 3 if tier == "quick" else 5
+
+    def seeds(self):
+        return [s + [("restart",)] for s in C05.seeds(self)[1:]]
+
+
 def make_spec(tier, name=None):
-    return C05(tier)
+    return C05Restart(tier) if name == "c05-restart" else C05(tier)
 
 
 def run(pid, tier, seed, args):
     from .base_run import run_specs
     spec = make_spec(tier)
-    return run_specs(pid, tier, seed, args, [("c05", spec, spec.depth, 100 if tier == "quick" else 1500)], rule=RULE)
+    spec2 = make_spec(tier, "c05-restart")
+    b = 100 if tier == "quick" else 1200
+    return run_specs(pid, tier, seed, args, [("c05", spec, spec.depth, b), ("c05-restart", spec2, spec2.depth, b)], rule=RULE)
